@@ -25,6 +25,9 @@ PROP = "C01"
 def run_job(job, w):
     from rt import harness, wfgen, oracles
     harness.setup_process(job["K"])
+    ty = None
+    if job.get("targeted_yield"):
+        ty = harness.install_targeted_yield(p=0.3, max_sleep=0.004, seed=job.get("line_seed", 0))
     ly = None
     if job.get("line_yield"):
         ly = harness.install_line_yield(job["line_yield"], seed=job.get("line_seed", 0))
@@ -86,6 +89,8 @@ def run_job(job, w):
                                         for e in ev if e["kind"] in ("launch", "cs.run")][:12]})
 
 
+    if ty:
+        w.count("targeted_yields_injected", ty["yields"])
     if ly:
         w.count("line_events", ly["lines"])
         w.count("line_yields_injected", ly["yields"])
@@ -141,11 +146,14 @@ def main():
         scs = make_scenarios(n_children * per_child, rnd, thorough)
         jobs = [{"K": K if not thorough else [10.0, 20.0, 20.0, 30.0][(rnd + i) % 4],
                  "scenarios": scs[i * per_child:(i + 1) * per_child]} for i in range(n_children)]
+        for i, j in enumerate(jobs):
+            j["targeted_yield"] = (rnd + i) % 2 == 0     # half of the children: sleeps inside the snapshot hand-offs
+            j["line_seed"] = rnd * 100 + i
         if thorough:
             # LINE-level yield injection on ~10% of the children (slow: K=10 and fewer scenarios)
             for i, j in enumerate(jobs):
-                if (rnd + i) % 10 == 0:
-                    j.update({"K": 10.0, "line_yield": 0.02, "line_seed": rnd * 100 + i,
+                if (rnd + i) % 10 == 1:
+                    j.update({"K": 10.0, "line_yield": 0.02, "line_seed": rnd * 100 + i, "targeted_yield": False,
                               "scenarios": j["scenarios"][:4], "watchdog_s": 400.0})
         vlib.fanout("checks.C01", jobs, c, timeout=900)
         rnd += 1
